@@ -325,6 +325,8 @@ type lexicon struct {
 	used  map[int]bool
 	n     int
 	res   *Result
+
+	firstAddr uint64
 }
 
 type argsItem struct {
@@ -420,11 +422,11 @@ func (lx *lexicon) addrOf(i int) uint64 {
 		return v
 	}
 	v := uint64(0x00c000010000) + uint64(lx.rng.Intn(1<<20))*8
-	if lx.rng.Intn(2) == 0 && len(lx.addrs) > 0 {
-		for _, a := range lx.addrs {
-			v = a // most reports race on one address
-			break
-		}
+	if lx.rng.Intn(2) == 0 && lx.firstAddr != 0 {
+		v = lx.firstAddr // most reports race on one address
+	}
+	if lx.firstAddr == 0 {
+		lx.firstAddr = v
 	}
 	lx.addrs[i] = v
 	return v
